@@ -3,11 +3,16 @@ import json
 import common
 
 PROPS = "RotoV.Props.C07"
+# the rule "recursive constants" (value_cycle.rs): own module, so that a change of the algorithm breaks exactly its obligations
+PROPS_CYCLE = "RotoV.Props.C07Cycle"
+MODULES_CYCLE = [
+    "RotoV.Model.TcValueCycle", "RotoV.Model.TcValueCyclePinned", "RotoV.Lemmas.TcValueCycle",
+    "RotoV.Model.Tarjan", "RotoV.Lemmas.Tarjan",
+]
 MODULES = [
     "RotoV.Lemmas.TcRules", "RotoV.Lemmas.UnifyTc", "RotoV.Lemmas.Typing", "RotoV.Lemmas.TypingAux", "RotoV.Lemmas.TypingMono", "RotoV.Lemmas.TypingProg",
     "RotoV.Model.Typing", "RotoV.Model.TcRules", "RotoV.Model.UnifyTc",
     "RotoV.Model.TcInfer", "RotoV.Model.TcInferPinned", "RotoV.Lemmas.TcInferUnify", "RotoV.Lemmas.TcInferSound", "RotoV.Lemmas.TcInferSoundMain", "RotoV.Lemmas.TcInferObls", "RotoV.Lemmas.TcInferProg", "RotoV.Model.TcInferSem",
-    "RotoV.Model.TcValueCycle", "RotoV.Model.TcValueCyclePinned", "RotoV.Lemmas.TcValueCycle", "RotoV.Model.Tarjan", "RotoV.Lemmas.Tarjan",
 ]
 
 
@@ -21,7 +26,17 @@ def search(ctx):
 
 def run(ctx):
     ctx.extract(["c07facts", "c07arms", "c07cycle"])
-    ctx.prove(PROPS, extra_modules=MODULES)
+    parts = []
+    for module, extra in ((PROPS, MODULES), (PROPS_CYCLE, MODULES_CYCLE)):
+        for k in ("theorems", "nonvacuity_examples", "axioms"):
+            ctx.coverage.pop(k, None)
+        ctx.prove(module, extra_modules=extra)
+        if ctx.coverage.get("theorems"):  # prove() overwrites these: report both modules
+            parts.append({k: ctx.coverage.get(k) for k in ("theorems", "nonvacuity_examples", "axioms")})
+    if parts:
+        ctx.coverage["theorems"] = [t for p in parts for t in p["theorems"]]
+        ctx.coverage["nonvacuity_examples"] = sum(p["nonvacuity_examples"] or 0 for p in parts)
+        ctx.coverage["axioms"] = {k: v for p in parts for k, v in (p["axioms"] or {}).items()}
     if ctx.build_harness("c07"):
         ctx.harness("c07", ["run", ctx.seed, ctx.tier], timeout=3000)
     ctx.trusted += [
